@@ -3,7 +3,8 @@
    the multiplexer's per-transaction pipeline, the authentication handler and the
    overlay / transaction-layer machinery; the handlers of the individual apps are
    ARBITRARY programs over the context interface (they are not modelled one by one). *)
-From Verif Require Import Lib.Base Atomic.Model Atomic.Proofs.
+From Verif Require Import Lib.Base Atomic.Model Atomic.Proofs Atomic.Handlers Atomic.GenCheck Gen.AtomicConsts.
+From Verif Require Ledger.State Ledger.Ops Ledger.TxAtomic.
 
 (* Writes made inside a transaction layer (ctx.NewTransaction) that is not
    committed are invisible afterwards: dropping the layer gives back LITERALLY the
@@ -66,12 +67,12 @@ Print Assumptions failed_tx_effect_generic.
    by the apps: validate and charge gas first / write last, or fallible writes
    inside NewTransaction()...Commit(). *)
 Theorem conventions_give_atomic_handlers :
-  (forall h, safe h -> atomic h) /\ (forall body, atomic (Tx body Ret)).
+  (forall h, safe h -> atomic (run h)) /\ (forall body, atomic (run (Tx body Ret))).
 Proof. exact (conj safe_atomic tx_wrapped_atomic). Qed.
 Print Assumptions conventions_give_atomic_handlers.
 
 Theorem failed_tx_effect_safe_handlers : forall P exec dec size s e g s',
-  (forall x h, exec Deliver x = Some h -> safe h) ->
+  (forall x h, exec Deliver x = Some h -> exists p, h = run p /\ safe p) ->
   deliver P exec dec size s = (Err e, g, s') ->
   s' = s \/ (exists x, dec = Some x /\ s' = post_auth_state s x).
 Proof. exact Proofs.failed_tx_effect_safe_handlers. Qed.
@@ -98,6 +99,7 @@ Print Assumptions auth_failure_changes_nothing.
 (* A delivered transaction (failed or not) never touches the last committed tree
    or the CheckTx tree: it writes the block's proposal overlay only. *)
 Theorem deliver_writes_proposal_overlay_only : forall P exec dec size s r g s',
+  (forall x h, exec Deliver x = Some h -> framed h) ->
   deliver P exec dec size s = (r, g, s') ->
   frame (m_tree s) (m_tree s') /\ m_check s' = m_check s.
 Proof. exact deliver_frame. Qed.
@@ -111,3 +113,93 @@ Theorem check_and_estimate_pure : forall P exec,
   (forall x size s gas s', estimate_gas P exec x size s = (gas, s') -> s' = s).
 Proof. exact Proofs.check_and_estimate_pure. Qed.
 Print Assumptions check_and_estimate_pure.
+
+(* ---------- concrete handlers (Atomic/Handlers.v) ----------
+   registry registerEntity / deregisterEntity / registerNode / registerRuntime and roothash
+   submitMsg ported with their real order of gas charges, checks, NewTransaction(), writes
+   (through the received handle or through ctx-built wrappers) and Commit(); keys, records
+   and the verdicts of the pure validation routines are universally quantified. *)
+
+(* The discipline: before the first write that dropping the layer does not undo (a write
+   while no layer is open, a write through the RECEIVED handle, Commit) a handler only
+   reads, charges gas, calls other apps inside its layer and writes into its layer; after
+   it, it cannot fail. Such a handler is atomic. *)
+Theorem handler_discipline_gives_atomicity : forall p, hsafe false p -> atomic (hrun p false).
+Proof. exact hsafe_atomic. Qed.
+Print Assumptions handler_discipline_gives_atomicity.
+
+Theorem failed_tx_effect_registry :
+  forall k_reg_params k_stake_params k_epoch k_features
+         k_entity k_entity_acct k_entity_nodes k_entity_runtimes
+         k_node k_node_index k_node_status k_node_lookups k_beacon_params
+         k_runtime k_suspended_runtime k_runtime_owner k_old_runtime_owner k_rt_acct k_old_rt_acct
+         cost count verify_entity_args signer_ok bypass_stake add_claim remove_claim new_val nonempty
+         verify_node_args admission_ok node_expired node_lookup_failed verify_node_update resume_needed
+         publish_resumed publish_new publish_updated rt_registration_disabled verify_runtime_args
+         verify_runtime_new_or_update rt_signer_ok rt_needs_stake owner_changed
+         P dec size s e g s',
+  deliver P (registry_exec k_reg_params k_stake_params k_epoch k_features
+         k_entity k_entity_acct k_entity_nodes k_entity_runtimes
+         k_node k_node_index k_node_status k_node_lookups k_beacon_params
+         k_runtime k_suspended_runtime k_runtime_owner k_old_runtime_owner k_rt_acct k_old_rt_acct
+         cost count verify_entity_args signer_ok bypass_stake add_claim remove_claim new_val nonempty
+         verify_node_args admission_ok node_expired node_lookup_failed verify_node_update resume_needed
+         publish_resumed publish_new publish_updated rt_registration_disabled verify_runtime_args
+         verify_runtime_new_or_update rt_signer_ok rt_needs_stake owner_changed) dec size s = (Err e, g, s') ->
+  s' = s \/ (exists x, dec = Some x /\ s' = post_auth_state s x).
+Proof. exact Handlers.failed_tx_effect_registry_l. Qed.
+Print Assumptions failed_tx_effect_registry.
+
+Theorem failed_tx_effect_submitmsg :
+  forall k_stake_params k_rh_params k_rt_state k_in_meta k_in_msg k_caller_acct k_rt_staking_acct
+         cost new_val rt_state_usable max_in_zero fee_below_min transfer_noop move below_min queue_full
+         P dec size s e g s',
+  deliver P (submitmsg_exec k_stake_params k_rh_params k_rt_state k_in_meta k_in_msg k_caller_acct k_rt_staking_acct
+         cost new_val rt_state_usable max_in_zero fee_below_min transfer_noop move below_min queue_full) dec size s = (Err e, g, s') ->
+  s' = s \/ (exists x, dec = Some x /\ s' = post_auth_state s x).
+Proof. exact Handlers.failed_tx_effect_submitmsg_l. Qed.
+Print Assumptions failed_tx_effect_submitmsg.
+
+(* A state wrapper built from ctx.State() BEFORE NewTransaction() writes below the layer:
+   submitMsg with that order (the seeded change C08-1) is not atomic. *)
+Theorem wrapper_built_before_layer_refuted : ~ atomic (hrun c08_1_handler false).
+Proof. exact c08_1_not_atomic. Qed.
+Print Assumptions wrapper_built_before_layer_refuted.
+
+(* G: the order of the steps in the source is the one the ports were written against, every
+   ctx-built wrapper of a handler with a layer is built inside the layer, no gas is charged
+   after a write. *)
+Theorem gen_handler_step_order :
+  register_entity_events = [8; 8; 1; 8; 1; 8; 8; 7; 8; 5; 8; 4; 8] /\
+  deregister_entity_events = [8; 1; 8; 8; 8; 8; 8; 4; 8; 8; 7; 8; 5] /\
+  register_node_events =
+    [8; 8; 8; 8; 8; 8; 8; 8; 8; 8; 1; 8; 2; 7; 8; 7; 8; 8; 5; 8; 8; 4; 8; 8; 7; 8; 4; 8; 8; 4; 6; 8; 8; 3] /\
+  register_runtime_events =
+    [8; 8; 8; 8; 8; 8; 8; 1; 8; 8; 8; 8; 8; 8; 8; 8; 2; 7; 8; 5; 8; 5; 8; 8; 6; 8; 6; 8; 4; 8; 4; 8; 4; 8; 4; 8; 4; 8; 3] /\
+  submit_msg_events = [8; 1; 8; 8; 8; 8; 2; 8; 7; 5; 8; 8; 8; 4; 8; 4; 8; 3].
+Proof. exact gen_handler_step_order_l. Qed.
+Print Assumptions gen_handler_step_order.
+
+Theorem gen_wrappers_built_inside_layer :
+  forallb captures_inside_layer
+    [register_entity_events; deregister_entity_events; register_node_events; register_runtime_events; submit_msg_events] = true /\
+  forallb (no_gas_after_write_from false)
+    [register_entity_events; deregister_entity_events; register_node_events; register_runtime_events; submit_msg_events] = true.
+Proof. exact gen_wrappers_built_inside_layer_l. Qed.
+Print Assumptions gen_wrappers_built_inside_layer.
+
+(* ---------- staking / governance-deposit handlers: the ledger model of C05 ----------
+   (Ledger/TxAtomic.v, proved by the C05 builder on the ported staking handlers) *)
+Theorem failed_tx_effect_staking : forall p s signer n fee g1 g2 b,
+  fst (Ledger.Ops.exec_tx p s signer n fee g1 g2 b) <> Ledger.Ops.ROk ->
+  snd (Ledger.Ops.exec_tx p s signer n fee g1 g2 b) = s \/
+  snd (Ledger.Ops.exec_tx p s signer n fee g1 g2 b) = Ledger.TxAtomic.post_auth p s signer n fee.
+Proof. exact Ledger.TxAtomic.failed_tx_effect_staking_l. Qed.
+Print Assumptions failed_tx_effect_staking.
+
+Theorem failed_tx_after_auth_staking : forall p s signer n fee g1 g2 b,
+  fst (Ledger.Ops.auth p s signer n fee) = Ledger.Ops.ROk ->
+  fst (Ledger.Ops.exec_tx p s signer n fee g1 g2 b) <> Ledger.Ops.ROk ->
+  snd (Ledger.Ops.exec_tx p s signer n fee g1 g2 b) = Ledger.TxAtomic.post_auth p s signer n fee.
+Proof. exact Ledger.TxAtomic.failed_tx_after_auth_l. Qed.
+Print Assumptions failed_tx_after_auth_staking.
